@@ -1,0 +1,8 @@
+//go:build verif
+
+package markdown
+
+// VerifProcessText exposes the paragraph reflow to the verification harness.
+func VerifProcessText(indent int, text []byte) []byte {
+	return append([]byte(nil), processText(indent, text)...)
+}
